@@ -28,8 +28,13 @@ def edits_dropped_column(rng, prog):
         if pname == "dropped_table_column" and c["quals"] and rng.random() < 0.5:
             qual = rng.choice(c["quals"])
         ref = ["col", qual, name]
-        use = rng.choice(["filter", "derive", "sort", "select", "group_key", "aggregate", "case_branch", "in_bound", "join_cond", "group_body", "this_qualified", "sort_desc_expr", "window_fn", "group_aggregate_fn", "aggregate", "aggregate"])
+        use = rng.choice(["filter", "derive", "sort", "select", "group_key", "aggregate", "case_branch", "case_dead_after_true", "case_false_cond", "case_const_cond", "and_false", "or_true", "coalesce_dead", "in_bound", "join_cond", "group_body", "this_qualified", "sort_desc_expr", "window_fn", "group_aggregate_fn", "aggregate", "aggregate"])
         first = c["cols"][0][0]
+        if pname == "std_colliding" and use in ("case_dead_after_true", "case_false_cond", "case_const_cond", "and_false", "or_true", "coalesce_dead"):
+            # a name that also names a std function IS in scope (as that function); using a function as a value is a
+            # type error that lowering reports only for code that survives constant folding, so in statically dead
+            # code such a name is legitimately accepted: only genuinely unknown names are placed there
+            use = "case_branch"
         if use == "filter":
             t = {"t": "filter", "cond": ["bin", ">", ref, ["lit", 1]]}
         elif use == "derive":
@@ -40,6 +45,20 @@ def edits_dropped_column(rng, prog):
             t = {"t": "select", "items": [[None, ref]]}
         elif use == "case_branch":
             t = {"t": "derive", "items": [["zq", ["case", [[["bin", "==", ["col", None, first], ["lit", None]], ["lit", 0]], [["lit", True], ref]]]]]}
+        elif use == "case_dead_after_true":
+            # statically dead code must still be well-scoped: a branch after the `true =>` default
+            t = {"t": "derive", "items": [["zq", ["case", [[["bin", "==", ["col", None, first], ["lit", None]], ["lit", 0]], [["lit", True], ["lit", 1]],
+                                                           [["bin", "!=", ["col", None, first], ["lit", None]], ref]]]]]}
+        elif use == "case_false_cond":
+            t = {"t": "derive", "items": [["zq", ["case", [[["lit", False], ref], [["lit", True], ["lit", 0]]]]]]}
+        elif use == "case_const_cond":
+            t = {"t": "derive", "items": [["zq", ["case", [[["bin", "==", ["lit", 1], ["lit", 2]], ref], [["lit", True], ["lit", 0]]]]]]}
+        elif use == "and_false":
+            t = {"t": "filter", "cond": ["bin", "&&", ["lit", False], ["bin", ">", ref, ["lit", 1]]]}
+        elif use == "or_true":
+            t = {"t": "filter", "cond": ["bin", "||", ["lit", True], ["bin", ">", ref, ["lit", 1]]]}
+        elif use == "coalesce_dead":
+            t = {"t": "derive", "items": [["zq", ["bin", "??", ["lit", 1], ref]]]}
         elif use == "in_bound":
             t = {"t": "filter", "cond": ["in", ["lit", 3], ["lit", 1], ref]}
         elif use == "join_cond":
